@@ -91,6 +91,7 @@ func c05Run(ops string) string {
 		}
 	}
 	settle := func() { settleFor(3, 500*time.Millisecond) }
+	var wbuf []byte
 	// an op may carry expectations "@u<N>" (N upstream packets surfaced so far) and "@d<i>=<n>" (n downstream
 	// bytes on carrier i so far): the driver waits for them (bounded) so that scheduling cannot reorder effects
 	waitFor := func(exps []string) {
@@ -160,7 +161,17 @@ func c05Run(ops string) string {
 			f := strings.Split(op, ":")
 			var cid turbotunnel.ClientID
 			copy(cid[:], c05hex(f[1]))
-			pconn.WriteTo(c05hex(f[2]), cid)
+			// like kcp-go, hand WriteTo a buffer that is reused (overwritten) right after the call returns
+			pkt := c05hex(f[2])
+			if cap(wbuf) < len(pkt) {
+				wbuf = make([]byte, len(pkt), 2*len(pkt)+16)
+			}
+			wbuf = wbuf[:len(pkt)]
+			copy(wbuf, pkt)
+			pconn.WriteTo(wbuf, cid)
+			for j := range wbuf {
+				wbuf[j] ^= 0xa5
+			}
 		default:
 			continue
 		}
